@@ -99,7 +99,13 @@ func ParseDecimal(in string) (*Decimal, error) {
 		ipart := in[:d]
 		fpart := in[d+1:]
 
-		exponent -= int32(len(fpart))
+		// Every fraction digit lowers the exponent by one; do that in 64 bits so that
+		// leaving the int32 range is reported instead of wrapping around.
+		shifted := int64(exponent) - int64(len(fpart))
+		if shifted < math.MinInt32 {
+			return nil, &ParseError{in, "exponent out of range"}
+		}
+		exponent = int32(shifted)
 		in = ipart + fpart
 	}
 
